@@ -350,6 +350,7 @@ type HookExchange struct {
 	RawReq   []byte
 	Response HookResponse
 	Epoch    int
+	DoneAt   time.Time // when the handler had answered
 }
 
 // HookClient implements hooks.HttpClientInterface in memory.
@@ -380,7 +381,7 @@ func (h *HookClient) Do(req *http.Request) (*http.Response, error) {
 		return nil, fmt.Errorf("verifworld: no hook route for %s", req.URL.String())
 	}
 	resp := f(req, body)
-	ex := &HookExchange{URL: req.URL.String(), RawReq: body, Response: resp, Epoch: epoch}
+	ex := &HookExchange{URL: req.URL.String(), RawReq: body, Response: resp, Epoch: epoch, DoneAt: time.Now()}
 	if m, err := vs.DecodeJSON(body); err == nil {
 		ex.Request = m
 	}
